@@ -717,23 +717,45 @@ func returnedErrors(fn *ssa.Function) map[*ssa.Return]ssa.Value {
 }
 
 func init() {
+	register(&Rule{ID: "ORD-18c", Title: "the not-found sentinel travels unchanged from the segment lookup to WAL.GetLog (it is compared with != on the way and is the API's raft.ErrLogNotFound)",
+		Props: []string{"C05", "C06", "C03", "C11"}, Floor: 5, Run: runORD18c})
 	register(&Rule{ID: "ORD-18b", Title: "the 'tail file does not exist' error keeps its os.ErrNotExist identity from the file system up to Open's errors.Is test",
 		Props: []string{"C03", "C01"}, Floor: 2, Run: runORD18b})
 }
 
+type errLayer struct {
+	fn    *ssa.Function
+	cause string                 // event name of the call whose error must be preserved ("" when match is set)
+	match func(c *ssa.Call) bool // alternative: a predicate on the call
+	what  string
+}
+
 func runORD18b(p *Prog, r *RuleRun) {
-	type layer struct {
-		fn    *ssa.Function
-		cause string // event name of the call whose error must be preserved
+	layers := []errLayer{
+		{fn: p.methodImpl("segment", "Filer", "RecoverTail"), cause: "types.VFS.OpenWriter"},
+		{fn: p.methodImpl("fs", "FS", "OpenWriter"), cause: "os.OpenFile"},
 	}
-	layers := []layer{
-		{p.methodImpl("segment", "Filer", "RecoverTail"), "types.VFS.OpenWriter"},
-		{p.methodImpl("fs", "FS", "OpenWriter"), "os.OpenFile"},
-	}
+	checkErrorLayers(p, r, layers, false, "a missing tail file no longer satisfies errors.Is(err, os.ErrNotExist) in wal.Open, so the recreate-missing-tail path is dead and a crash between the metadata commit and the new file's directory fsync leaves the WAL unopenable")
+}
+
+// checkErrorLayers: in every layer function, each return that hands the failure of the layer's cause upward returns
+// that error itself (strict) or at least keeps it in the chain with %w.
+func checkErrorLayers(p *Prog, r *RuleRun, layers []errLayer, strict bool, consequence string) {
 	for _, l := range layers {
+		l := l
+		name := l.cause
+		if name == "" {
+			name = l.what
+		}
 		if l.fn == nil {
-			r.Unknown("anchor:"+l.cause, "?", "implementation not found for the layer above "+l.cause)
+			r.Unknown("anchor:"+name, "?", "implementation not found for the layer above "+name)
 			continue
+		}
+		causeCall := func(c *ssa.Call) bool {
+			if l.match != nil {
+				return l.match(c)
+			}
+			return eventName(c) == l.cause
 		}
 		var isCause func(v ssa.Value) bool
 		// viaHelper: a same-package helper that calls the cause and hands its error on with its identity intact
@@ -750,7 +772,7 @@ func runORD18b(p *Prog, r *RuleRun) {
 			calls := false
 			for _, b := range callee.Blocks {
 				for _, ins := range b.Instrs {
-					if ci, ok := ins.(ssa.CallInstruction); ok && eventName(ci) == l.cause {
+					if c, ok := ins.(*ssa.Call); ok && causeCall(c) {
 						calls = true
 					}
 				}
@@ -762,7 +784,7 @@ func runORD18b(p *Prog, r *RuleRun) {
 				if c, ok := v.(*ssa.Const); ok && c.IsNil() {
 					continue
 				}
-				if ok, _ := errorPreserved(v, isCause, 0); !ok {
+				if ok, why := errorPreserved(v, isCause, 0); !ok || strict && why != "returned unchanged" {
 					return false
 				}
 			}
@@ -770,15 +792,24 @@ func runORD18b(p *Prog, r *RuleRun) {
 			return true
 		}
 		isCause = func(v ssa.Value) bool {
+			var c *ssa.Call
 			if ex, ok := v.(*ssa.Extract); ok {
-				if c, ok := ex.Tuple.(*ssa.Call); ok && ex.Index == resultErrIndex(c.Call.Signature()) {
-					if eventName(c) == l.cause {
-						return true
-					}
-					if callee := c.Call.StaticCallee(); callee != nil && callee != l.fn && helperPreserves(callee, 0) {
-						return true
-					}
+				cc, ok := ex.Tuple.(*ssa.Call)
+				if !ok || ex.Index != resultErrIndex(cc.Call.Signature()) {
+					return false
 				}
+				c = cc
+			} else if cc, ok := v.(*ssa.Call); ok && cc.Call.Signature().Results().Len() == 1 {
+				c = cc
+			}
+			if c == nil {
+				return false
+			}
+			if causeCall(c) {
+				return true
+			}
+			if callee := c.Call.StaticCallee(); callee != nil && callee != l.fn && helperPreserves(callee, 0) {
+				return true
 			}
 			return false
 		}
@@ -803,11 +834,135 @@ func runORD18b(p *Prog, r *RuleRun) {
 			}
 			n++
 			ok, why := errorPreserved(v, isCause, 0)
-			r.Check(ok, funcDisplay(l.fn)+":"+l.cause+":error-identity", posOf(p, ret), "the error of "+l.cause+" is "+why,
-				fmt.Sprintf("%s turns the error of %s into a new error (%s): a missing tail file no longer satisfies errors.Is(err, os.ErrNotExist) in wal.Open, so the recreate-missing-tail path is dead and a crash between the metadata commit and the new file's directory fsync leaves the WAL unopenable", funcDisplay(l.fn), l.cause, why))
+			if strict && ok && why != "returned unchanged" {
+				ok, why = false, why+", but the caller compares with == / !=, which a wrapped error does not satisfy"
+			}
+			r.Check(ok, funcDisplay(l.fn)+":"+name+":error-identity", posOf(p, ret), "the error of "+name+" is "+why,
+				fmt.Sprintf("%s turns the error of %s into a new error (%s): %s", funcDisplay(l.fn), name, why, consequence))
 		}
 		if n == 0 {
-			r.Unknown(funcDisplay(l.fn)+":"+l.cause+":error-identity", p.Position(l.fn.Pos()), "no return handing the failure of "+l.cause+" upward was found")
+			r.Unknown(funcDisplay(l.fn)+":"+name+":error-identity", p.Position(l.fn.Pos()), "no return handing the failure of "+name+" upward was found")
 		}
+	}
+}
+
+// ---------------------------------------------------------------- ORD-18c
+
+func runORD18c(p *Prog, r *RuleRun) {
+	static := func(fn *ssa.Function) func(c *ssa.Call) bool {
+		return func(c *ssa.Call) bool { return fn != nil && c.Call.StaticCallee() == fn }
+	}
+	iface := func(method string) func(c *ssa.Call) bool {
+		return func(c *ssa.Call) bool { return c.Call.IsInvoke() && c.Call.Method.Name() == method }
+	}
+	getLog := p.Func("", "state.getLog")
+	findSeg := p.Func("", "state.findSegmentReader")
+	rGet := p.methodImpl("segment", "Reader", "GetLog")
+	ffo := p.Func("segment", "Reader.findFrameOffset")
+	layers := []errLayer{
+		{fn: p.Func("", "WAL.GetLog"), match: static(getLog), what: "state.getLog"},
+		{fn: getLog, match: iface("GetLog"), what: "the segment's GetLog"},
+		{fn: getLog, match: static(findSeg), what: "state.findSegmentReader"},
+		{fn: p.methodImpl("segment", "Writer", "GetLog"), match: func(c *ssa.Call) bool { return static(rGet)(c) || iface("GetLog")(c) }, what: "Reader.GetLog"},
+		{fn: rGet, match: static(ffo), what: "Reader.findFrameOffset"},
+		{fn: ffo, match: iface("OffsetForFrame"), what: "the tail's OffsetForFrame"},
+	}
+	checkErrorLayers(p, r, layers, true, "the tail's \"not in this segment\" answer is no longer recognised by the snapshot lookup (it compares with != ErrNotFound), so a read of an index held by an older segment fails instead of falling back to it, and callers that test for raft.ErrLogNotFound no longer see it")
+	// Generic part: wherever production code compares the error of a call with a package-level sentinel using
+	// == or != , nothing that call can reach may wrap that sentinel in a new error (== does not look through %w).
+	wrapsSentinel := func(c *ssa.Call, name string) bool {
+		if eventName(c) != "fmt.Errorf" || len(c.Call.Args) != 2 {
+			return false
+		}
+		sl, ok := c.Call.Args[1].(*ssa.Slice)
+		if !ok {
+			return false
+		}
+		arr, ok := sl.X.(*ssa.Alloc)
+		if !ok {
+			return false
+		}
+		for _, ref := range *arr.Referrers() {
+			if ia, ok := ref.(*ssa.IndexAddr); ok {
+				for _, r2 := range *ia.Referrers() {
+					if st, ok := r2.(*ssa.Store); ok {
+						val := st.Val
+						if ci, ok := val.(*ssa.ChangeInterface); ok {
+							val = ci.X
+						}
+						if isGlobalLoad(val, name) {
+							return true
+						}
+					}
+				}
+			}
+		}
+		return false
+	}
+	nSites := 0
+	ord := ordinal{}
+	for _, fn := range p.Funcs {
+		rel := pkgRelOf(p, fn)
+		if rel == "cmd/waldump" {
+			continue
+		}
+		for _, b := range fn.Blocks {
+			for _, ins := range b.Instrs {
+				bo, ok := ins.(*ssa.BinOp)
+				if !ok || (bo.Op != token.EQL && bo.Op != token.NEQ) {
+					continue
+				}
+				for _, pair := range [][2]ssa.Value{{bo.X, bo.Y}, {bo.Y, bo.X}} {
+					u, ok := pair[1].(*ssa.UnOp)
+					if !ok || u.Op != token.MUL {
+						continue
+					}
+					g, ok := u.X.(*ssa.Global)
+					if !ok || !isErrorType(g.Type().(*types.Pointer).Elem()) || g.Pkg == nil || !strings.HasPrefix(g.Pkg.Pkg.Path(), ModPath) {
+						continue
+					}
+					// the compared error: result of which call?
+					var call *ssa.Call
+					switch x := pair[0].(type) {
+					case *ssa.Extract:
+						call, _ = x.Tuple.(*ssa.Call)
+					case *ssa.Call:
+						call = x
+					}
+					if call == nil {
+						continue
+					}
+					nSites++
+					key := ord.next(funcDisplay(fn) + ":==" + g.Name())
+					var roots []*ssa.Function
+					if callee := call.Call.StaticCallee(); callee != nil {
+						roots = append(roots, callee)
+					} else if p.CG != nil {
+						if node := p.CG.Nodes[fn]; node != nil {
+							for _, ed := range node.Out {
+								if ed.Site == call {
+									roots = append(roots, ed.Callee.Func)
+								}
+							}
+						}
+					}
+					bad := ""
+					for f2 := range p.reachableFuncs(roots...) {
+						for _, b2 := range f2.Blocks {
+							for _, i2 := range b2.Instrs {
+								if c2, ok := i2.(*ssa.Call); ok && wrapsSentinel(c2, g.Name()) {
+									bad = funcDisplay(f2) + " at " + posOf(p, c2)
+								}
+							}
+						}
+					}
+					r.Check(bad == "", key, posOf(p, bo), "nothing the compared call can reach wraps "+g.Name()+" in a new error",
+						fmt.Sprintf("%s compares an error with %s using %s, but %s wraps that sentinel in a new error (fmt.Errorf ... %%w): the comparison no longer recognises it (a tail whose header was never written is no longer re-initialised on recovery / a lookup no longer falls back to older segments)", funcDisplay(fn), g.Name(), bo.Op, bad))
+				}
+			}
+		}
+	}
+	if nSites == 0 {
+		r.Unknown("sentinel-comparisons", "?", "no == / != comparison of a call's error with a package sentinel found")
 	}
 }
